@@ -55,3 +55,14 @@ package table_valued_functions
 //@   ensures rows: result == nil ==> forall(j, 0, len(OUT), len(OUT[j].Values) == 1 && OUT[j].Values[0].TypeID == 1 && OUT[j].Values[0].Int == evalVal(r.start, ctx).Int + j && !OUT[j].Retraction)
 //@   ensures nometa: len(OUTM) == 0
 //@   ensures errprop: produceFailed() || evalErr(r.start, ctx) != nil || evalErr(r.end, ctx) != nil ==> result != nil
+
+// C21 poll (the emission half of a round): every record of the source's current snapshot is emitted once, prefixed with
+// the round's time as a Time value, stamped with that time, never as a retraction, the other columns unchanged (compared
+// through cls, an uninterpreted function of all of a value's components: what holds for every such function is
+// component-wise equality); the source's metadata is forwarded unchanged; the clock never reads the zero time.
+// (The retraction half — a round first retracts exactly the previous round's emissions — is not under contract: see
+// /verif/wip/poll_contract_attempt.txt.)
+//@ func (*poll).Run
+//@   stream 1 invariant time: lastNow == now && now.ns > 0 - 62135596800000000000
+//@   stream 1 step IN one: stepErr == nil ==> len(OUT) == old(len(OUT)) + 1 && len(lastValues) == old(len(lastValues)) + 1 && !lastOut().Retraction && lastOut().EventTime == now && len(lastOut().Values) == len(lastIn().Values) + 1 && lastOut().Values[0].TypeID == 5 && lastOut().Values[0].Time == now && forall(q, 0, len(lastIn().Values), cls(lastOut().Values[q + 1]) == cls(lastIn().Values[q]))
+//@   stream 1 step INM forward: stepErr == nil ==> len(OUTM) == old(len(OUTM)) + 1 && lastOutM() == lastInM() && len(OUT) == old(len(OUT))
